@@ -330,8 +330,8 @@ def run(ctx: lib.Ctx, prop: str) -> None:
     rng = ctx.rng
     t0 = time.time()
     want11 = prop == "C11"
-    n_models = ctx.n(4, 60)
-    per_class = ctx.n(5, 10)
+    n_models = ctx.n(4, 16)
+    per_class = ctx.n(5, 8)
     models: List[Tuple[str, MetaModel, bool]] = [(name, mm, False) for name, mm in corpus(rng)]
     prof = jg.profile()
     for k in range(n_models):
